@@ -217,21 +217,32 @@ def consensus(
     super_reads = [[], []]
     components = dict()
 
+    # Variants that are already phased in the input keep their phase and phase set,
+    # whether or not a tagged read covers them
+    for pos, phase in phased.items():
+        if phase is None or len(phase.phase) != 2 or None in phase.phase:
+            continue
+        components[pos] = int(phase.block_id) - 1
+        quality = phase.quality if phase.quality is not None else 0
+        super_reads[0].append(Variant(pos, allele=phase.phase[0], quality=quality))
+        super_reads[1].append(Variant(pos, allele=phase.phase[1], quality=quality))
+
     for pos, vote in votes.items():
+        if pos in components:
+            continue
         best_allele, phase_set, fraction, score = best_candidate(vote)
         components[pos] = phase_set
-        if phased[pos] is None:
-            if 100 * fraction < gap_threshold:
+        if 100 * fraction < gap_threshold:
+            continue
+        if only_indels and change[pos].is_snv():
+            continue
+        if cut_homopolymers > 0:
+            max_length = max(
+                length_of_homopolymer(refseq, pos + 1, 1, cut_homopolymers),
+                length_of_homopolymer(refseq, pos, -1, cut_homopolymers),
+            )
+            if max_length > cut_homopolymers:
                 continue
-            if only_indels and change[pos].is_snv():
-                continue
-            if cut_homopolymers > 0:
-                max_length = max(
-                    length_of_homopolymer(refseq, pos + 1, 1, cut_homopolymers),
-                    length_of_homopolymer(refseq, pos, -1, cut_homopolymers),
-                )
-                if max_length > cut_homopolymers:
-                    continue
         super_reads[0].append(Variant(pos, allele=id_to_allele[pos][best_allele], quality=score))
         super_reads[1].append(
             Variant(pos, allele=id_to_allele[pos][1 - best_allele], quality=score)
